@@ -416,16 +416,36 @@ def count(ctx: Ctx) -> None:
     ctx.need(n_sites >= 4, f"only {n_sites} PrimitiveOperation constructions found")
     # ChunkKeys enumerates the product of range(len(c)) over its chunks
     ck = repo.get(f"{A.PBW}.ChunkKeys.__iter__")
-    src = unparse(ck.node, 400)
-    ok = False
+    ok = None
+
+    def _ranges_expr(e: ast.AST) -> ast.AST:
+        """look through a local name or a no-argument method of the same class that returns
+        the list of ranges"""
+        if isinstance(e, ast.Name):
+            fl_, cfg_ = flow_of(repo, ck), cfg_of(ck)
+            vs = [s_.value for s_ in fl_.rdefs(e.id, cfg_.exit) if s_.value is not None]
+            if len(vs) == 1:
+                return _ranges_expr(vs[0])
+        if isinstance(e, ast.Call) and isinstance(e.func, ast.Attribute) and isinstance(e.func.value, ast.Name) and e.func.value.id == "self" and not e.args and not e.keywords and ck.cls is not None:
+            h = ck.cls.children.get(e.func.attr)
+            if h is not None and h.is_func:
+                rets = [r for r in h.own_nodes() if isinstance(r, ast.Return) and r.value is not None]
+                if len(rets) == 1:
+                    return rets[0].value
+        return e
+
     for n in ck.own_nodes():
         if isinstance(n, ast.Call) and attr_chain(n.func) in ("itertools.product", "product"):
             for a in n.args:
-                if isinstance(a, ast.Starred) and isinstance(a.value, (ast.ListComp, ast.GeneratorExp)):
-                    el = a.value.elt
-                    g = a.value.generators[0]
-                    if isinstance(el, ast.Call) and unparse(el) == f"range(len({unparse(g.target)}))" and not g.ifs and is_self_attr(g.iter) and len(a.value.generators) == 1:
-                        ok = True
+                if isinstance(a, ast.Starred):
+                    comp = _ranges_expr(a.value)
+                    if isinstance(comp, (ast.ListComp, ast.GeneratorExp)) and len(comp.generators) == 1:
+                        el = comp.elt
+                        g = comp.generators[0]
+                        if isinstance(el, ast.Call) and isinstance(el.func, ast.Name) and el.func.id == "range" and is_self_attr(g.iter):
+                            # recognisable: judge it
+                            ok = unparse(el) == f"range(len({unparse(g.target)}))" and not g.ifs
+    ctx.need(ok is not None, "ChunkKeys.__iter__: product over per-axis ranges not recognised")
     ctx.ob(ck, None, ok, "ChunkKeys iterates the full product of range(len(c)) over its chunks", sel="count:chunkkeys")
     # the primitive stores the task iterable as it was given (or its own ChunkKeys): no
     # one-shot wrapper around it
